@@ -1,5 +1,5 @@
 /-
-  C05, structural values of compressed data after the repair of finding F24 (`CoderState._assert_equal_values_of_index`
+  C05, structural values of compressed data after the repair of findings F24 and F24b (last section) (`CoderState._assert_equal_values_of_index`
   compares every value of the column with the first one, `None` included): the delayed replication factor the compressed
   decoder / encoder works with is the value EVERY subset holds, so a compressed message never has a subset whose factor is
   missing or different — which uncompressed data would refuse (missing) or decode with another structure (different).
@@ -37,5 +37,35 @@ example : decPrimsC.factorValue { vals := [[.int 2, .int 7], [.int 2, .missing],
   decide
 example : encPrimsC.factorValue { idx := 1, vals := [[.int 2, .int 7], [.int 2, .missing]] } = .ok (.int 2) := by decide
 example : sameAsFirst [.int 3, .int 3] = .ok () ∧ sameAsFirst [.int 3, .missing] = .error .lib := by decide
+
+/-! ### finding F24b (repaired): the bit-map of compressed data -/
+
+/-- the compressed DECODER: a bit-map is accepted exactly when subset 0's reader accepts it and EVERY subset holds these
+    same values in its last `n` positions — after a successful `define_bitmap` all subsets hold the same bit-map bits -/
+theorem C05_compressed_bitmap_same_in_all_subsets (n : Nat) (s : St) (l : List Val) :
+    decPrimsC.lastValues n s = .ok l ↔ decLastValues n s = .ok l ∧ ∀ row ∈ s.vals, lastSlice n row = l :=
+  decLastValuesC_iff
+
+/-- the compressed ENCODER: every subset supplies the bit-map of subset 0 -/
+theorem C05_compressed_encoder_bitmap_same_in_all_subsets (n : Nat) (s : St) (l : List Val)
+    (h : encPrimsC.lastValues n s = .ok l) :
+    encLastValues n s = .ok l ∧ ∀ row ∈ s.vals, encSlice n s.idx row = l :=
+  encLastValuesC_ok h
+
+/-- a refusal by the comparison itself is the LIBRARY error; the repair only refuses more (whatever it accepts the old
+    reader accepted with the same bit-map); the bit-maps `0 1 | 1 1` and `0 1 | missing 1` separate them -/
+theorem C05_compressed_bitmap_repair_refuses_more :
+    (∀ (n : Nat) (s : St) (e : Err), decLastValuesC n s = .error e → decLastValues n s = .error e ∨ e = .lib) ∧
+    (∀ (n : Nat) (s : St) (l : List Val), decLastValuesC n s = .ok l → decLastValues n s = .ok l) ∧
+    decLastValues 2 { vals := [[.int 1, .int 0], [.int 1, .int 1]] } = .ok [.int 0, .int 1] ∧
+    decLastValuesC 2 { vals := [[.int 1, .int 0], [.int 1, .int 1]] } = .error .lib ∧
+    decLastValuesC 2 { vals := [[.int 1, .int 0], [.int 1, .missing]] } = .error .lib :=
+  ⟨fun _ _ _ h => decLastValuesC_err h, fun _ _ _ h => (decLastValuesC_ok h).1,
+    decLastValues_accepts_differing.1, decLastValues_accepts_differing.2.1, decLastValues_accepts_differing.2.2.1⟩
+
+example : decPrimsC.lastValues 2 { vals := [[.int 1, .int 0, .int 7], [.int 1, .int 0, .int 8]] } = .ok [.int 0, .int 1] := by
+  decide
+example : encPrimsC.lastValues 2 { idx := 3, vals := [[.int 7, .int 0, .int 1, .int 5], [.int 8, .int 0, .int 1, .int 6]] } =
+    .ok [.int 0, .int 1] := by decide
 
 end Bufr
